@@ -18,7 +18,7 @@ EXPLANATION = ("to_thread.run_sync: the dispatch to the worker and the wait for 
                "its unpacking agree position by position; the thread runs the function in the caller's copied context, captures every "
                "exception, publishes the scope for check_cancelled around the call only, and reports (future, result, exception) to a "
                "callback that sets exactly one of them on a non-cancelled future; from_thread.run/run_sync resolve their concurrent future on "
-               "every path and return its result; the public wrappers forward their arguments; only WorkerThread.stop queues the shutdown sentinel and it takes the worker out of the idle deque on every returning path (a stopped worker is never handed work).")
+               "every path and return its result; the public wrappers forward their arguments; only WorkerThread.stop queues the shutdown sentinel and it takes the worker out of the idle deque on every returning path (a stopped worker is never handed work); the loop-independent CapacityLimiter adapter forwards every member, the total_tokens setter included, to the backend limiter it materialised.")
 NOT_DECIDED = ("Real thread timing (the race between the report callback and a cancellation of the caller), pruning of idle workers, "
                "the number of OS threads, uvloop.")
 
@@ -479,6 +479,14 @@ def check(ctx):
 
     # ---- R14-j a stopped worker is never offered for reuse: whoever queues the shutdown sentinel for a worker also takes it out of the idle deque
     stopped_worker_not_idle(ctx, "R14-j")
+
+    # ---- R14-k the limiter a caller passes to run_sync may be the loop-independent public object (`anyio.CapacityLimiter(n)` created
+    # outside a loop = CapacityLimiterAdapter): "never more running calls than the limiter's total" then rests on the adapter handing
+    # every operation - the total_tokens setter included - to the backend limiter it materialised (shared with C10/R10-h; seed C14-k)
+    from .adapters import check_adapter, check_factory
+    check_adapter(ctx, "R14-k", "CapacityLimiterAdapter", "_internal_limiter", "_limiter", "create_capacity_limiter", {},
+                  value_members=("statistics",), pre_state={"total_tokens": "self._total_tokens = $V"})
+    check_factory(ctx, "R14-k", "CapacityLimiter", "create_capacity_limiter", "CapacityLimiterAdapter")
 
     # ---- R14-h "never more running calls than the limiter's total": every grant of a token is capacity-guarded (shared with C10/R10-a)
     from .c10 import grants_capacity_guarded
